@@ -18,7 +18,9 @@ CHUNK = 50
 RULE = ("per run: listen_host (loopback v4/v6, all interfaces, IPv4/IPv6 wildcard, explicit address) x 1-3 real listeners "
         "(regular, socks5, transparent, reverse http/tcp/udp/dns, upstream, dns; TCP, UDP and dual-transport) started by the "
         "real Proxyserver on SimNet, optionally re-configured mid-run, incl. 2-3 listeners (TCP or UDP) bound to different "
-        "addresses but ONE port number through per-mode '@addr:port' specs in any order; a history of 3-8 requests whose destination is a "
+        "addresses but ONE port number through per-mode '@addr:port' specs in any order, and a listener added at runtime "
+        "whose bind takes 0-1.5 s of virtual time while clients of the running instance issue requests inside that window "
+        "(then probed with loop destinations, optionally removed again); a history of 3-8 requests whose destination is a "
         "spelling of an own listener (localhost any case / trailing dot, 127.0.0.0/8, ::1 and re-spellings, IPv4-mapped "
         "loopback, 0.0.0.0, ::, the explicit listen address and re-spellings) or a control (other port, other transport, "
         "foreign host), reached via absolute-form, CONNECT, SOCKS5 (name/IPv4/IPv6), transparent original destination, "
@@ -38,7 +40,8 @@ ASSUMPTIONS = ["a listener on all interfaces (listen_host '') owns an IPv4 and a
                "(False e.g. for 127.0.0.2 against a socket bound to 127.0.0.1)"]
 EXPECTED_PROBES = ["loop_refused", "control_served", "via_absolute", "via_connect", "via_socks5", "via_original_dst",
                    "via_host_header", "via_rewrite", "via_mode_target", "via_udp", "cross_transport_control",
-                   "reconfigured", "no_verdict", "shared_port_loop_refused", "shared_port_udp_loop_refused"]
+                   "reconfigured", "no_verdict", "shared_port_loop_refused", "shared_port_udp_loop_refused",
+                   "request_during_listener_start", "late_listener_loop_refused"]
 
 
 def B(s):
@@ -205,6 +208,7 @@ def mode_listener(spec, listen_host, listen_port):
 class Model:
     def __init__(self, listen_host, listen_port, modes):
         self.listen_host, self.listen_port = listen_host, listen_port
+        self.unsure = set()  # ports whose listeners are being stopped/started right now: no verdict either way
         self.set_modes(modes)
 
     def set_modes(self, modes):
@@ -213,6 +217,8 @@ class Model:
     def verdict(self, host, port, proto):
         """-> (True|False|None, info)"""
         best = (False, None)
+        if port in self.unsure:
+            best = (None, {"dest": dest_class(host), "listen": "changing", "strict": False, "listener_transport": proto})
         for lhost, lport, transports, spec in self.listeners:
             if lport != port or proto not in transports:
                 continue
@@ -227,6 +233,8 @@ class Model:
 
     def foreign(self, port, proto):
         """Why (port, proto) can not denote any own listening socket: 'other_port' | 'other_transport' | None."""
+        if port in self.unsure:
+            return None
         same_port = [l for l in self.listeners if l[1] == port]
         if not same_port:
             return "other_port"
@@ -292,7 +300,7 @@ def generate(rng, tier):
     ports = [listen_port, listen_port, p2]
     shape = r.choice(["regular", "regular", "regular+socks5", "transparent", "reverse", "reverse_self", "upstream",
                       "upstream_self", "udp_self", "dns_self", "dns+udp", "cross_transport", "regular+dnsboth",
-                      "shared_port", "shared_port", "shared_port_udp"])
+                      "shared_port", "shared_port", "shared_port_udp", "late_listener", "late_listener"])
     ops = []
     nops = r.randrange(3, 9)
 
@@ -391,6 +399,50 @@ def generate(rng, tier):
             else:
                 via = r.choice(["host_header", "rewrite", "rewrite_headers", "transparent_absolute"])
             rq(mode, via, host, port)
+    elif shape == "late_listener":
+        # a listener is ADDED at runtime while another instance keeps serving: its bind takes virtual time, clients of the
+        # running instance issue requests inside that window (any order / delay), then the new listener is probed
+        modes = ["regular"] if r.random() < 0.6 else ["regular", f"socks5@{p2}"]
+        for _ in range(r.randrange(0, 3)):
+            http_regular("regular")
+        lhost_new = None
+        kd = r.choice(["regular", "socks5", "reverse:http://o.test:80", "transparent", "upstream:http://p.test:3128"])
+        if r.random() < 0.3:
+            lhost_new = r.choice(SHARED_V4 + ["::1"])
+            added = f"{kd}@{lhost_new}:{p3}"
+        else:
+            added = f"{kd}@{p3}"
+        new = list(modes)
+        new.insert(r.randrange(len(new) + 1), added)
+        during = []
+        for _ in range(r.choice([0, 1, 1, 2, 3])):
+            x = r.random()
+            if x < 0.5:
+                host, port = r.choice(CONTROLS), r.choice([80, 80, 8000])
+            else:
+                host, port = gen_dest(r, listen_host, [listen_port, p3])
+            during.append({"op": "request", "mode": "regular",
+                           "via": r.choice(["absolute", "absolute", "connect", "rewrite", "rewrite_headers"]),
+                           "host": host, "port": port, "gap": r.choice([0, 0, 0.001, 0.02, 0.3, 1.0])})
+        ops.append({"op": "set_modes", "modes": new, "bind_delay": r.choice([0, 0.01, 0.2, 0.2, 1.5]), "requests": during})
+        own = lhost_new if lhost_new is not None else (listen_host or r.choice(["0.0.0.0", "::"]))
+        for _ in range(r.randrange(2, 5)):
+            x = r.random()
+            if x < 0.3:
+                host = own
+            elif x < 0.65:
+                host = r.choice(["localhost", "127.0.0.1", "::1"])
+            else:
+                host = gen_dest(r, listen_host, [p3])[0]
+            port = p3 if r.random() < 0.9 else listen_port
+            rq("regular", r.choice(["absolute", "absolute", "connect", "connect", "rewrite", "rewrite_headers"]), host, port)
+        if r.random() < 0.25:
+            # ... and taken away again (later requests to its port are ordinary destinations)
+            ops.append({"op": "set_modes", "modes": list(modes), "bind_delay": 0, "requests": []})
+            for _ in range(2):
+                host, port = gen_dest(r, listen_host, [p3, listen_port])
+                rq("regular", r.choice(["absolute", "connect"]), host, port)
+        modes = list(modes)
     elif shape == "shared_port_udp":
         # the same for UDP: two UDP reverse proxies on one port number, one of them pointing at the other (or at itself)
         pool = list(SHARED_V4) + (list(SHARED_V6) if r.random() < 0.4 else [])
@@ -561,6 +613,8 @@ def execute(sc):
                         probe("shared_port_loop_refused")
                     elif sc.get("family", "").endswith("shared_port_udp"):
                         probe("shared_port_udp_loop_refused")
+                    elif sc.get("family", "").endswith("late_listener") and addr[1] == sc["listen_port"] + 2:
+                        probe("late_listener_loop_refused")
                 elif err:
                     pass  # refused for another reason: no connect follows
                 # (no error at all -> the planner reports the connect)
@@ -574,18 +628,64 @@ def execute(sc):
                     probe("refused_beyond_statement")
         w.hook_done_listeners.append(on_done)
 
-        for k, op in enumerate(sc["ops"]):
-            if op["op"] == "set_modes":
-                w.master.options.update(mode=list(op["modes"]))
-                await asyncio.sleep(0.5)
-                model.set_modes(op["modes"])
-                add_dual_stack()
-                probe("reconfigured")
-                log.append(("set_modes", tuple(op["modes"])))
-                continue
+        # binding a listening socket takes time on a real host (getaddrinfo in the thread pool, bind/listen): the
+        # scenario can stretch it.  Wrapped here (not in SimNet); the world restores the real functions at teardown.
+        import mitmproxy_rs
+        net_start_tcp, net_start_udp = asyncio.start_server, mitmproxy_rs.udp.start_udp_server
+
+        async def slow_start_server(cb, host=None, port=None, **kw):
+            if state.get("bind_delay"):
+                w.net.fired("slow_bind")
+                await asyncio.sleep(state["bind_delay"])
+            srv = await net_start_tcp(cb, host, port, **kw)
+            if not host and len(srv.sockets) == 1:
+                srv.sockets.append(_FakeSock(("::", port, 0, 0)))
+            return srv
+
+        async def slow_start_udp_server(host, port, cb):
+            if state.get("bind_delay"):
+                w.net.fired("slow_bind")
+                await asyncio.sleep(state["bind_delay"])
+            return await net_start_udp(host, port, cb)
+        asyncio.start_server = slow_start_server
+        mitmproxy_rs.udp.start_udp_server = slow_start_udp_server
+
+        counter = [0]
+
+        async def do_request(op):
+            k = counter[0]
+            counter[0] += 1
             state.update(op=op, k=k, connects=[], sc=[])
             out = await run_op(w, op, k)
             state["op"] = None
+            return out
+
+        for k, op in enumerate(sc["ops"]):
+            if op["op"] == "set_modes":
+                delay = op.get("bind_delay", 0)
+                old_modes = [l[3] for l in model.listeners]
+                changed = [m for m in old_modes if m not in op["modes"]] + [m for m in op["modes"] if m not in old_modes]
+                # while listeners are being stopped/started, destinations on their ports carry no verdict
+                model.set_modes([m for m in op["modes"] if m in old_modes])
+                model.unsure = {mode_listener(m, sc["listen_host"], sc["listen_port"])[1] for m in changed}
+                state["bind_delay"] = delay
+                t0 = w.loop.time()
+                w.master.options.update(mode=list(op["modes"]))
+                outs = []
+                for rqo in op.get("requests", []):
+                    await asyncio.sleep(rqo.get("gap", 0))
+                    if w.ps.servers.is_updating:
+                        probe("request_during_listener_start")
+                    outs.append((rqo["via"], dest_class(rqo["host"]), await do_request(rqo)))
+                await asyncio.sleep(max(0.0, delay - (w.loop.time() - t0)) + 0.5)
+                state["bind_delay"] = 0
+                model.set_modes(op["modes"])
+                model.unsure = set()
+                add_dual_stack()
+                probe("reconfigured")
+                log.append(("set_modes", tuple(op["modes"]), delay, tuple(outs)))
+                continue
+            out = await do_request(op)
             intended = model.verdict(op["host"], op["port"], "udp" if op["via"].endswith("_udp") else "tcp")
             log.append((op["mode"].split("@")[0].split("://")[0], op["via"], dest_class(op["host"]),
                         listen_class(sc["listen_host"]), intended[0], out, tuple(state["connects"]), tuple(state["sc"])))
